@@ -2728,7 +2728,10 @@ impl Node {
                 ))
             };
         }
-        if !state.velocity_control.insert(now.as_secs(), payment_state.amount_msat) {
+        // the velocity control needs non-decreasing timestamps: read the clock while the node
+        // state is held (as add_keysend and check_onchain_tx do), not the reading taken above
+        let now = self.clock.now().as_secs();
+        if !state.velocity_control.insert(now, payment_state.amount_msat) {
             warn!(
                 "policy-commitment-payment-velocity velocity would be exceeded - += {} = {} > {}",
                 payment_state.amount_msat,
